@@ -22,6 +22,13 @@ def keypair(i=0):
     return _KEYPAIRS[i]
 
 
+def _displayable(cls):
+    from zope.interface import implementer
+    from allmydata.interfaces import IDisplayableServer
+    return implementer(IDisplayableServer)(cls)
+
+
+@_displayable
 class FakeServer:
     """Stands in for an IServer where the real code only uses it as a dict key / for logging."""
 
@@ -37,6 +44,9 @@ class FakeServer:
 
     def get_longname(self):
         return "server-%02d" % self.i
+
+    def get_nickname(self):
+        return "nick-%02d" % self.i
 
     def upload_permitted(self):
         return self.permitted
